@@ -1478,8 +1478,9 @@ class Repository:
                 with glock:
                     digests = files_digests[file_path]
                     digests.remove(digest)
+                    finished = not digests
 
-                if not digests:
+                if finished:
                     logger.info('Finished writing file %s', file_path)
                     with glock:
                         restore_path, metadata = files_metadata.pop(file_path)
